@@ -45,6 +45,33 @@ var c19gRepo = c19gParams{sqlRel: "sql", exprRel: "sql/expression", setField: "N
 	buildPkgs: []string{"sql/planbuilder"}, execPkgs: []string{"sql/rowexec"},
 	floors: map[string]int{"C19-G1": 5, "C19-G2": 6, "C19-G3": 9, "C19-G4": 4}}
 
+// c19gFixture: the G clauses must fire on the broken builders / construction sites / appliers of
+// testdata/c19/{build,plan,gexec} and stay silent on the correct ones next to them.
+func c19gFixture(c *Ctx, fx *Prog) {
+	p := c19gParams{sqlRel: "testdata/c19/sql", exprRel: "testdata/c19/expr", setField: "NewSetField", planRel: "testdata/c19/plan",
+		ueType: "UpdateExprs", ueCtor: "NewUpdateExprs", ocIface: "EditOpenerCloser",
+		buildPkgs: []string{"testdata/c19/build"}, execPkgs: []string{"testdata/c19/gexec"}, floors: map[string]int{}}
+	expectFixture(c, fx, "c19g: broken recomputation of generated columns must be reported", []string{
+		"C19-G1:addDependentHoisted/generated-recompute",
+		"C19-G1:addDependentSwapped/generated-recompute",
+		"C19-G1:addDependentSwapped/on-update-yields-to-assignment",
+		"C19-G1:addDependentSwapped/loop-unconditional",
+		"C19-G1:assigned-predicate(neverAssigned)",
+		"C19-G1:addDependentBlind/on-update-applied",
+		"C19-G1:addDependentBlind/on-update-yields-to-assignment",
+		"C19-G2:addDependentSwapped/appends-after-assignments",
+		"C19-G2:ToUpdateExprsNoDerived/NewUpdateExprs",
+		"C19-G2:ToUpdateExprsWrongSplit/NewUpdateExprs",
+		"C19-G2:UpdateExprs.Tail/partition",
+		"C19-G2:UpdateExprs/split-index-written@UpdateExprs.Reset",
+		"C19-G3:applyStale/derived-loop",
+		"C19-G3:upserter.upsertRestart/derived-after-explicit",
+		"C19-G3:upserter.upsertBad/result-is-last-application",
+		"C19-G4:upserter.upsertBad/change-test-operands",
+		"C19-G4:upserter.upsertBad/derived-applied-when-changed",
+	}, func(fc *Ctx) { runC19G(fc, p) })
+}
+
 type c19g struct {
 	c *Ctx
 	p c19gParams
@@ -276,6 +303,7 @@ func (a *c19g) builderBody(pk *packages.Package, fd *ast.FuncDecl, fn *types.Fun
 	name := DeclName(fd)
 	g := c.P.CFG(info, fd.Body)
 	loopVar := c19gObjOf(info, rs.Value)
+	tagless := c19gTaglessCases(fd.Body)
 
 	// R: the variables that hold the (running) assignment slice
 	rset := map[types.Object]bool{rParam: true}
@@ -373,7 +401,7 @@ func (a *c19g) builderBody(pk *packages.Package, fd *ast.FuncDecl, fn *types.Fun
 					}
 					return c19gU, false
 				}
-				w := &c19gWalker{info: info, budget: 200000}
+				w := &c19gWalker{info: info, budget: 200000, tagless: tagless}
 				w.atom = func(p *c19gPath, e ast.Expr) (int, bool) {
 					switch x := e.(type) {
 					case *ast.BinaryExpr:
@@ -459,16 +487,23 @@ func (a *c19g) builderBody(pk *packages.Package, fd *ast.FuncDecl, fn *types.Fun
 								if lo == nil {
 									continue
 								}
-								if call, ok := ast.Unparen(x.Rhs[i]).(*ast.CallExpr); ok && IsBuiltinCall(info, call, "append") && a.isExprSlice(lo.Type()) {
-									for _, arg := range call.Args[1:] {
+								if a.isExprSlice(lo.Type()) {
+									// every SetField that enters the slice (wherever it is put: G2 decides the position)
+									ast.Inspect(x.Rhs[i], func(m ast.Node) bool {
+										arg, ok := m.(ast.Expr)
+										if !ok {
+											return true
+										}
 										t := 0
 										if sf, ok := a.isSetFieldCall(info, arg); ok {
 											t = c19gTagSF | tagOf(p, sf.Args[1])
-										} else if ao := c19gObjOf(info, arg); ao != nil && p.tags[ao]&c19gTagSF != 0 {
-											t = p.tags[ao]
+										} else if id, ok := arg.(*ast.Ident); ok {
+											if ao := info.Uses[id]; ao != nil && p.tags[ao]&c19gTagSF != 0 {
+												t = p.tags[ao]
+											}
 										}
 										if t&c19gTagSF == 0 {
-											continue
+											return true
 										}
 										switch t & (c19gTagG | c19gTagU) {
 										case c19gTagG:
@@ -478,7 +513,8 @@ func (a *c19g) builderBody(pk *packages.Package, fd *ast.FuncDecl, fn *types.Fun
 										default:
 											p.marks["emitOther"] = true
 										}
-									}
+										return false
+									})
 									continue
 								}
 								setPtr(lo, x.Rhs[i])
@@ -547,9 +583,13 @@ func (a *c19g) builderBody(pk *packages.Package, fd *ast.FuncDecl, fn *types.Fun
 	}
 	emit("generated-recompute", "every path of the column loop with col.Generated != nil appends SetField(col, <Generated>)")
 	if !predSeen {
-		c.Undecided("C19-G1", name+"/on-update-applied", rs.Pos(), name+": no call of an \"is this column assigned\" predicate over the assignment slice was recognised in the column loop; the ON UPDATE arm cannot be decided")
+		for _, k := range []string{"on-update-applied", "on-update-yields-to-assignment"} {
+			c.Undecided("C19-G1", name+"/"+k, rs.Pos(), name+": no call of an \"is this column assigned\" predicate over the assignment slice was recognised in the column loop; the ON UPDATE arm cannot be decided")
+		}
 	} else if !a.predVerdicts[predFn] {
-		c.Undecided("C19-G1", name+"/on-update-applied", predPos, name+": the meaning of the predicate "+predFn.Name()+" could not be confirmed (see its own report); the ON UPDATE arm cannot be decided")
+		for _, k := range []string{"on-update-applied", "on-update-yields-to-assignment"} {
+			c.Undecided("C19-G1", name+"/"+k, predPos, name+": the meaning of the predicate "+predFn.Name()+" could not be confirmed (see its own report); the ON UPDATE arm cannot be decided")
+		}
 	} else {
 		emit("on-update-applied", "ON UPDATE SetField appended when the column is not assigned")
 		emit("on-update-yields-to-assignment", "no ON UPDATE SetField when the column is assigned")
@@ -803,7 +843,7 @@ func (a *c19g) predShape(fn *types.Func, colIdx, listIdx int) bool {
 	anyTrue := false
 	problem := ""
 	var problemPath []ast.Node
-	w := &c19gWalker{info: info, budget: 200000}
+	w := &c19gWalker{info: info, budget: 200000, tagless: c19gTaglessCases(fd.Body)}
 	w.cond = func(p *c19gPath, e ast.Expr, taken bool) {
 		// does taking this edge imply the name comparison held?
 		hasCmp := false
@@ -1063,7 +1103,13 @@ func (a *c19g) ctorCall(pk *packages.Package, fd *ast.FuncDecl, call *ast.CallEx
 	}
 	// argument 1: len(S), or len(E) with S := make([]Expression, len(E)) as S's only definition
 	okNum := false
-	if lc, ok := ast.Unparen(call.Args[1]).(*ast.CallExpr); ok && IsBuiltinCall(info, lc, "len") && len(lc.Args) == 1 {
+	arg1 := ast.Unparen(call.Args[1])
+	if o := c19gObjOf(info, arg1); o != nil {
+		if def := c19gSingleDef(info, fd, o); def != nil {
+			arg1 = ast.Unparen(def)
+		}
+	}
+	if lc, ok := arg1.(*ast.CallExpr); ok && IsBuiltinCall(info, lc, "len") && len(lc.Args) == 1 {
 		x := c19gObjOf(info, lc.Args[0])
 		if x != nil && x == s {
 			// S must not grow between its definition and this call other than by index stores
